@@ -29,7 +29,7 @@ def signature(draw, allow_catch_all=True, allow_deps=True):
     n = draw(st.integers(0, 5))
     names = draw(st.lists(st.sampled_from(NAMES), min_size=n, max_size=n, unique=True))
     var_args = allow_catch_all and draw(st.integers(0, 3)) == 0
-    var_kwargs = allow_catch_all and draw(st.integers(0, 3)) == 0
+    var_kwargs = allow_catch_all and draw(st.integers(0, 2)) == 0
     params = []
     for nm in names:
         ann = draw(st.sampled_from(list(ANN)))
@@ -126,6 +126,9 @@ def payload_for(draw, sig: dict):
     if "extras" in mode:
         for nm in draw(st.lists(st.sampled_from(EXTRA_NAMES), min_size=1, max_size=3, unique=True)):
             pl[nm] = draw(st.one_of(st.integers(0, 99), st.text("xy", max_size=3)))
+    # an entry named like a dependency parameter: the dependency must never be replaced by it
+    if sig.get("deps") and draw(st.integers(0, 2)) == 0:
+        pl[draw(st.sampled_from([d["name"] for d in sig["deps"]]))] = "spoofed"
     keys = list(pl)
     perm = draw(st.permutations(keys))
     return {k: pl[k] for k in perm}, mode
@@ -162,6 +165,9 @@ def compare(out: Outcome, sig: dict, payload: Optional[dict], rec: list, failed:
             out.v("missing-argument-not-failed", f"{tag}: payload {payload!r} lacks a required parameter but the execution did not fail",
                   converter=conv)
         return
+    collide = [k for k in extras if k in {d["name"] for d in sig["deps"]}]
+    if collide and (failed or not rec):
+        return  # a payload entry colliding with a dependency parameter may fail the execution (it must not replace the dependency)
     if failed or not rec:
         out.v("bindable-call-failed", f"{tag}: payload {payload!r} is bindable ({exp!r}, extras {extras!r}) but the execution failed",
               converter=conv, has_extras=bool(extras), var_args=sig["var_args"], var_kwargs=sig["var_kwargs"],
@@ -173,14 +179,16 @@ def compare(out: Outcome, sig: dict, payload: Optional[dict], rec: list, failed:
         out.v("wrong-binding", f"{tag}: payload {payload!r}: parameters received {named!r}, expected {exp!r}", converter=conv)
     got_args = r["args"] or []
     got_kwargs = r["kwargs"] or {}
-    if sig["var_kwargs"] and sig["var_args"]:
-        ok = (got_kwargs == extras and got_args == []) or (got_kwargs == {} and _ms(got_args) == _ms(extras.values()))
-    elif sig["var_kwargs"]:
-        ok = got_kwargs == extras
-    elif sig["var_args"]:
-        ok = _ms(got_args) == _ms(extras.values())
-    else:
-        ok = True
+    def placed(extras: dict) -> bool:
+        if sig["var_kwargs"] and sig["var_args"]:
+            return (got_kwargs == extras and got_args == []) or (got_kwargs == {} and _ms(got_args) == _ms(extras.values()))
+        if sig["var_kwargs"]:
+            return got_kwargs == extras
+        if sig["var_args"]:
+            return _ms(got_args) == _ms(extras.values())
+        return True
+
+    ok = placed(extras) or (bool(collide) and placed({k: v for k, v in extras.items() if k not in collide}))
     if not ok:
         out.v("extras-misplaced", f"{tag}: payload {payload!r}: extras {extras!r} must go only to the catch-all; got *args={got_args!r} "
               f"**kwargs={got_kwargs!r}", converter=conv)
@@ -347,7 +355,7 @@ def run_output(case: dict) -> Outcome:
 
 @st.composite
 def worker_case(draw):
-    conv = draw(st.sampled_from(["basic", "pydantic", "default"]))
+    conv = draw(st.sampled_from(["basic", "basic", "pydantic", "default"]))
     sig = draw(signature(allow_catch_all=(conv == "basic")))
     payload, mode = draw(payload_for(sig))
     return {"converter": conv, "sig": sig, "payload": payload, "mode": mode, "seed": draw(st.integers(0, 999))}
@@ -422,6 +430,6 @@ CHECK = Check(
         SubCheck("direct-pydantic", lambda: bind_case("pydantic"), run_direct, quick=300, thorough=10000),
         SubCheck("differential", diff_case, run_diff, quick=200, thorough=8000),
         SubCheck("outputs", output_case, run_output, quick=200, thorough=8000),
-        SubCheck("worker", worker_case, run_worker, quick=40, thorough=1500),
+        SubCheck("worker", worker_case, run_worker, quick=80, thorough=2500),
     ],
 )
